@@ -126,7 +126,7 @@ def check(ctx):
                 if x.kind == "CALL" and x.a["func"] == fq and len(x.stack) == depth:
                     break
                 if x.kind == "MEMBER" and len(x.stack) > depth:
-                    srcs = {sub[1] for sub in subterms(x.a["container"]) if isinstance(sub, tuple) and sub[:1] == ("regtop",)}
+                    srcs = {sub[1] for sub in subterms(x.a["container"]) if isinstance(sub, tuple) and sub[:1] in (("regtop",), ("reg",))}
                     bad = sorted(srcs & seq_regs)
                     ctx.ob("ID-INUSE", "%s tests membership of the identifier only in registries keyed by identifier" % short(fq), not bad,
                            where=where(x), function=x.func, construct="%s/membership/%s" % (x.func, "+".join(bad) or "keyed"),
